@@ -492,10 +492,10 @@ pub fn gen_request(rng: &mut Rng, desc: &Desc) -> Vec<EntrySpec> {
             let policy = if kind.is_grouped() {
                 match rng.below(100) {
                     0..=24 => PolicySpec::Compact,
-                    25..=39 => PolicySpec::Tight,
-                    40..=59 => PolicySpec::Scatter,
-                    60..=77 => PolicySpec::ForceCompact,
-                    78..=92 => PolicySpec::ForceTight,
+                    25..=41 => PolicySpec::Tight,
+                    42..=61 => PolicySpec::Scatter,
+                    62..=79 => PolicySpec::ForceCompact,
+                    80..=95 => PolicySpec::ForceTight,
                     _ => PolicySpec::All,
                 }
             } else {
@@ -504,7 +504,7 @@ pub fn gen_request(rng: &mut Rng, desc: &Desc) -> Vec<EntrySpec> {
                     55..=62 => PolicySpec::Tight,
                     63..=70 => PolicySpec::Scatter,
                     71..=78 => PolicySpec::ForceCompact,
-                    79..=86 => PolicySpec::ForceTight,
+                    79..=92 => PolicySpec::ForceTight,
                     _ => PolicySpec::All,
                 }
             };
